@@ -108,7 +108,11 @@ def cal_el(cal, o: Opts):
         a["order"] = str(cal.order)
     if cal.extrapolate or o.write_default():
         a["extrapolate"] = b(cal.extrapolate)
-    return E("SplineCalibrator", a, [E("SplinePoint", {"raw": num(r), "calibrated": num(c)}) for r, c in cal.points])
+    pts = list(cal.points)
+    if o.rng is not None and len(pts) > 1 and o.rng.random() < 0.5:
+        # the order of SplinePoint elements in the document carries no meaning
+        o.rng.shuffle(pts)
+    return E("SplineCalibrator", a, [E("SplinePoint", {"raw": num(r), "calibrated": num(c)}) for r, c in pts])
 
 
 def numeric_children(enc, o: Opts):
